@@ -13,7 +13,7 @@ var syncSites = map[uint32]bool{}
 var taskKinds = []struct {
 	kind string
 	w    int
-}{{"parse", 18}, {"parse-render", 10}, {"stream", 14}, {"render", 26}, {"append", 8}, {"format", 14}, {"walk", 10}, {"inspect", 8}, {"walk-shared", 7}, {"stream-shared-ip", 7}, {"gc", 3}, {"parse-keep-inner", 4}, {"render-html", 9}}
+}{{"parse", 18}, {"parse-render", 10}, {"stream", 14}, {"render", 26}, {"append", 8}, {"format", 14}, {"walk", 10}, {"inspect", 8}, {"walk-shared", 7}, {"stream-shared-ip", 7}, {"gc", 3}, {"parse-keep-inner", 4}, {"render-html", 9}, {"stream-std", 7}}
 
 func genSched(r *Rng, phase string) []*Scenario {
 	nd := r.Range(1, 4)
@@ -32,7 +32,7 @@ func genSched(r *Rng, phase string) []*Scenario {
 			s.Docs = append(s.Docs, d)
 			continue
 		}
-		s.Docs = append(s.Docs, genDoc(r, []int{120, 300, 300, 700}[r.Intn(4)]))
+		s.Docs = append(s.Docs, genDocMany(r, []int{120, 300, 300, 700}[r.Intn(4)], 0.015))
 	}
 	s.Doc = s.Docs[0]
 	shared := genRenderScn(r)
